@@ -44,6 +44,7 @@ TLaunch ==
   /\ sawErr' = FALSE
   /\ UNCHANGED <<pending, racc, count, succ, jobCount, active, decd, finished, bad, chan,
                  batch, abort, err>>
+  /\ UNCHANGED Flow
 
 \* JobStart: Start with unobservable pop order
 TStart == IsEvent("JobStart") /\ ~abort /\ StartFrom(Id, queue)
@@ -58,6 +59,7 @@ TAborted ==
   /\ abort' = TRUE
   /\ UNCHANGED <<pending, racc, launched, count, succ, jobCount, active, decd, finished, bad,
                  chan, mainPc, batch, sawErr, err>>
+  /\ UNCHANGED Flow
 
 \* JobEnd: Finish (exec returned, counters decremented if ok)
 TEnd == IsEvent("JobEnd") /\ Finish(Id, Rec[l].ok, FALSE)
@@ -80,6 +82,7 @@ TRecv ==
   /\ mainPc' = "drain"
   /\ UNCHANGED <<pending, racc, launched, count, succ, jobCount, queue, active, decd,
                  finished, bad, abort>>
+  /\ UNCHANGED Flow
 
 \* after exec gave up (error or unable) the scope drains and a last non-blocking read happens
 TRecvLate ==
@@ -89,6 +92,7 @@ TRecvLate ==
   /\ chan' = RemoveOne(chan, Id)
   /\ UNCHANGED <<pending, racc, launched, count, succ, jobCount, queue, active, decd,
                  finished, bad, mainPc, batch, sawErr, abort, err>>
+  /\ UNCHANGED Flow
 
 \* HandleSuccess: Handle of exactly this id
 THandle ==
@@ -111,6 +115,7 @@ TUnable ==
   /\ mainPc' = "unable"
   /\ UNCHANGED <<pending, racc, launched, count, succ, jobCount, queue, active, decd,
                  finished, bad, chan, batch, sawErr, abort, err>>
+  /\ UNCHANGED Flow
 
 \* ScopeDone: the rayon scope returned: every closure has finished
 TScopeDone ==
